@@ -86,6 +86,9 @@ inductive SrvMove : View → Msg → View → Prop
       (hk : 1 ≤ k ∧ k ≤ 5) (hs : v.stage + 1 = k) : SrvMove v ⟨welcomeNumeric k, a :: args, n⟩ { v with stage := k }
   | motdStart (v : View) (a : Str) (args : List Str) (n : Str) (hw : canWelcome v = true) (hs : v.stage = 5) :
       SrvMove v ⟨num '3' '7' '5', a :: args, n⟩ { v with stage := 6 }
+  /-- RPL_MOTD (372), a nick-setting numeric without a handler of its own -/
+  | motdLine (v : View) (a : Str) (args : List Str) (n : Str) (hw : canWelcome v = true) (hs : v.stage = 6) :
+      SrvMove v ⟨num '3' '7' '2', a :: args, n⟩ v
   | motdEnd (v : View) (a : Str) (args : List Str) (n : Str) (hw : canWelcome v = true) (hs : v.stage = 6) :
       SrvMove v ⟨num '3' '7' '6', a :: args, n⟩ { v with stage := 7 }
   | noMotd (v : View) (args : List Str) (n : Str) (hw : canWelcome v = true) (hs : v.stage = 5) :
@@ -617,6 +620,21 @@ theorem pres_welcome {cfg : Cfg} {s : St} {v : View} (k : Nat) (a : Str) (args :
   · intro h0; simp only [List.foldl_nil] at h0; omega
   · rw [f3]
     exact phase_congr (b := bot s) rfl (phase_stage k hk.2 hw (by omega) hp)
+
+theorem pres_motdLine {cfg : Cfg} {s : St} {v : View} (a : Str) (args : List Str) (n : Str) (hs : v.stage = 6)
+    (hq : s.fastq = [] ∧ s.ev = []) (ha : v.aborted = false) (h : Common cfg (bot s) v ∧ Phase cfg (bot s) v) :
+    Inv cfg (step cfg s ⟨num '3' '7' '2', a :: args, n⟩).st (seeStep v (step cfg s ⟨num '3' '7' '2', a :: args, n⟩)) := by
+  obtain ⟨f1, f2, f3⟩ := step_facts (cfg := cfg) s { s with nick := a } ⟨num '3' '7' '2', a :: args, n⟩
+    (nickSetter_numeric _ _ _ _ _ (show Gen.Conn.nickSetters.contains (num '3' '7' '2') = true by decide))
+  rw [run_none (show dispatch ⟨num '3' '7' '2', a :: args, n⟩ = .none from rfl)] at f1 f2 f3
+  simp only [ok, hq.1, hq.2] at f1 f2
+  rw [seeStep_quiet v _ f2 ha, f1]
+  obtain ⟨hc, hp⟩ := h
+  refine .inr (.inr ⟨⟨?_, ?_, ?_⟩, ?_⟩)
+  · rw [f3]; exact hc.mechsNext
+  · rw [f3]; exact hc.mechsCur
+  · intro h0; simp only [List.foldl_nil] at h0; omega
+  · rw [f3]; exact phase_congr (b := bot s) rfl hp
 
 /-! ### MOTD -/
 
@@ -1515,6 +1533,7 @@ theorem inv_preach {cfg : Cfg} (hd : cfg.realDriver = false) {base : St} {v3 : B
       case nickRefused c args n hs hc => exact pres_nickRefused c args n hs hc hq hna h
       case welcome k a args n hw hk hs => exact pres_welcome k a args n hw hk hs hq hna h
       case motdStart a args n hw hs => exact pres_motdStart hd a args n hw hs hq hna h
+      case motdLine a args n hw hs => exact pres_motdLine a args n hs hq hna h
       case motdEnd a args n hw hs =>
         obtain ⟨hcm, hp⟩ := h
         have hf : s.fsm = .INIT_MOTD := by
@@ -1536,5 +1555,228 @@ theorem inv_preach {cfg : Cfg} (hd : cfg.realDriver = false) {base : St} {v3 : B
           · exact .inr (.inl h)
         exact pres_endMotd hd (v' := { v with stage := 7 }) ⟨num '4' '2' '2', args, n⟩
           (nickSetter_plain _ _ (show Gen.Conn.nickSetters.contains (num '4' '2' '2') = false by decide)) rfl rfl rfl rfl hf hq
+
+/-! ### an executable acceptor for the conformant-server relation (used by the harness to check that
+its conformant scripts lie inside the domain of `progress`) -/
+
+def welcomeIndex (c : Str) : Option Nat :=
+  if c = num '0' '0' '1' then some 1 else if c = num '0' '0' '2' then some 2 else if c = num '0' '0' '3' then some 3
+  else if c = num '0' '0' '4' then some 4 else if c = num '0' '0' '5' then some 5 else none
+
+def srvPing (v : View) (args : List Str) : Option View :=
+  match args with
+  | [_] => some v
+  | _ => none
+
+def srvCap (v : View) (args : List Str) : Option View :=
+  match args with
+  | [_, sub, star, _] => if sub = sLS ∧ star = sStar ∧ v.v3 = true ∧ v.lsOwed = true then some v else none
+  | [_, sub, caps] =>
+    if sub = sLS then (if v.v3 = true ∧ v.lsOwed = true then some { v with lsOwed := false } else none)
+    else if sub = sACK ∨ sub = sNAK then
+      (match v.reqs with
+       | ws :: rest => if v.v3 = true ∧ splitWs caps = ws then some { v with reqs := rest } else none
+       | [] => none)
+    else none
+  | _ => none
+
+def srvAuth (v : View) (args : List Str) : Option View :=
+  match args with
+  | [c] => if v.v3 = true ∧ v.auth ≠ .none ∧
+              (c = sPlus ∨ (c.length ≠ Gen.Conn.authenticateChunkSize ∧ (b64decodedLen [c]).isSome = true))
+           then some { v with auth := .none } else none
+  | _ => none
+
+def srvSaslNumeric (v : View) (cmd : Str) : Option View :=
+  if cmd = num '9' '0' '3' then (if v.v3 = true ∧ v.auth = .payload then some { v with auth := .none } else none)
+  else if isFailNumeric cmd = true then (if v.v3 = true ∧ v.auth ≠ .none then some { v with auth := .none } else none)
+  else if cmd = num '9' '0' '8' then (if v.auth = .mech then some v else none)
+  else none
+
+def srvMotd (v : View) (cmd : Str) (args : List Str) : Option View :=
+  if cmd = num '3' '7' '5' then
+    (match args with | _ :: _ => if canWelcome v = true ∧ v.stage = 5 then some { v with stage := 6 } else none | [] => none)
+  else if cmd = num '3' '7' '6' then
+    (match args with | _ :: _ => if canWelcome v = true ∧ v.stage = 6 then some { v with stage := 7 } else none | [] => none)
+  else if cmd = num '4' '2' '2' then (if canWelcome v = true ∧ v.stage = 5 then some { v with stage := 7 } else none)
+  else if cmd = num '3' '7' '2' then
+    (match args with | _ :: _ => if canWelcome v = true ∧ v.stage = 6 then some v else none | [] => none)
+  else none
+
+def srvWelcome (v : View) (cmd : Str) (args : List Str) : Option View :=
+  match welcomeIndex cmd, args with
+  | some k, _ :: _ => if canWelcome v = true ∧ v.stage + 1 = k then some { v with stage := k } else none
+  | _, _ => none
+
+def isSaslNumeric (cmd : Str) : Bool := cmd = num '9' '0' '3' || isFailNumeric cmd || cmd = num '9' '0' '8'
+def isMotdNumeric (cmd : Str) : Bool :=
+  cmd = num '3' '7' '5' || cmd = num '3' '7' '6' || cmd = num '4' '2' '2' || cmd = num '3' '7' '2'
+
+def srvMoveC (v : View) (cmd : Str) (args : List Str) (n : Str) : Option View :=
+  if cmd = sPING then srvPing v args
+  else if cmd = sCAP then srvCap v args
+  else if cmd = sAUTHENTICATE then srvAuth v args
+  else if isSaslNumeric cmd = true then srvSaslNumeric v cmd
+  else if isNickRefusal cmd = true then (if v.stage = 0 then some v else none)
+  else if isMotdNumeric cmd = true then srvMotd v cmd args
+  else if (welcomeIndex cmd).isSome = true then srvWelcome v cmd args
+  else if dispatch ⟨cmd, args, n⟩ = .none ∧ Gen.Conn.nickSetters.contains cmd = false then some v else none
+
+def srvMoveB (v : View) (m : Msg) : Option View := srvMoveC v m.command m.args m.nick
+
+theorem welcomeIndex_spec {c : Str} {k : Nat} (h : welcomeIndex c = some k) : c = welcomeNumeric k ∧ 1 ≤ k ∧ k ≤ 5 := by
+  unfold welcomeIndex at h
+  split at h
+  · injection h with h; subst h; rename_i hc; exact ⟨hc, by decide, by decide⟩
+  · split at h
+    · injection h with h; subst h; rename_i hc; exact ⟨hc, by decide, by decide⟩
+    · split at h
+      · injection h with h; subst h; rename_i hc; exact ⟨hc, by decide, by decide⟩
+      · split at h
+        · injection h with h; subst h; rename_i hc; exact ⟨hc, by decide, by decide⟩
+        · split at h
+          · injection h with h; subst h; rename_i hc; exact ⟨hc, by decide, by decide⟩
+          · cases h
+
+theorem srvPing_sound {v v1 : View} {args : List Str} {n : Str} (h : srvPing v args = some v1) : SrvMove v ⟨sPING, args, n⟩ v1 := by
+  unfold srvPing at h
+  split at h
+  · injection h with h; subst h; exact .ping _ _ _
+  · cases h
+
+theorem srvCap_sound {v v1 : View} {args : List Str} {n : Str} (h : srvCap v args = some v1) : SrvMove v ⟨sCAP, args, n⟩ v1 := by
+  unfold srvCap at h
+  split at h
+  · split at h
+    · rename_i hcond; obtain ⟨rfl, rfl, h3, ho⟩ := hcond
+      injection h with h; subst h; exact .lsMore _ _ _ _ h3 ho
+    · cases h
+  · split at h
+    · rename_i hsub; subst hsub
+      split at h
+      · rename_i hcond; injection h with h; subst h; exact .lsFinal _ _ _ _ hcond.1 hcond.2
+      · cases h
+    · split at h
+      · rename_i hsub
+        split at h
+        · rename_i ws rest hreqs
+          split at h
+          · rename_i hcond; injection h with h; subst h
+            rcases hsub with rfl | rfl
+            · exact .ack _ _ _ _ ws rest hcond.1 hreqs hcond.2
+            · exact .nak _ _ _ _ ws rest hcond.1 hreqs hcond.2
+          · cases h
+        · cases h
+      · cases h
+  · cases h
+
+theorem srvAuth_sound {v v1 : View} {args : List Str} {n : Str} (h : srvAuth v args = some v1) :
+    SrvMove v ⟨sAUTHENTICATE, args, n⟩ v1 := by
+  unfold srvAuth at h
+  split at h
+  · split at h
+    · rename_i hcond; injection h with h; subst h
+      exact .authContinue _ _ _ hcond.1 hcond.2.1 hcond.2.2
+    · cases h
+  · cases h
+
+theorem srvSaslNumeric_sound {v v1 : View} {cmd : Str} {args : List Str} {n : Str} (h : srvSaslNumeric v cmd = some v1) :
+    SrvMove v ⟨cmd, args, n⟩ v1 := by
+  unfold srvSaslNumeric at h
+  split at h
+  · rename_i hc; subst hc
+    split at h
+    · rename_i hcond; injection h with h; subst h; exact .authOk _ _ _ hcond.1 hcond.2
+    · cases h
+  · split at h
+    · rename_i hf
+      split at h
+      · rename_i hcond; injection h with h; subst h; exact .authFail _ _ _ _ hcond.1 hcond.2 hf
+      · cases h
+    · split at h
+      · rename_i hc; subst hc
+        split at h
+        · rename_i hcond; injection h with h; subst h; exact .mechs _ _ _ hcond
+        · cases h
+      · cases h
+
+theorem srvMotd_sound {v v1 : View} {cmd : Str} {args : List Str} {n : Str} (h : srvMotd v cmd args = some v1) :
+    SrvMove v ⟨cmd, args, n⟩ v1 := by
+  unfold srvMotd at h
+  split at h
+  · rename_i hc; subst hc
+    split at h
+    · split at h
+      · rename_i hcond; injection h with h; subst h; exact .motdStart _ _ _ _ hcond.1 hcond.2
+      · cases h
+    · cases h
+  · split at h
+    · rename_i hc; subst hc
+      split at h
+      · split at h
+        · rename_i hcond; injection h with h; subst h; exact .motdEnd _ _ _ _ hcond.1 hcond.2
+        · cases h
+      · cases h
+    · split at h
+      · rename_i hc; subst hc
+        split at h
+        · rename_i hcond; injection h with h; subst h; exact .noMotd _ _ _ hcond.1 hcond.2
+        · cases h
+      · split at h
+        · rename_i hc; subst hc
+          split at h
+          · split at h
+            · rename_i hcond; injection h with h; subst h; exact .motdLine _ _ _ _ hcond.1 hcond.2
+            · cases h
+          · cases h
+        · cases h
+
+theorem srvWelcome_sound {v v1 : View} {cmd : Str} {args : List Str} {n : Str} (h : srvWelcome v cmd args = some v1) :
+    SrvMove v ⟨cmd, args, n⟩ v1 := by
+  unfold srvWelcome at h
+  split at h
+  · rename_i k a rest hk
+    obtain ⟨rfl, hk1, hk5⟩ := welcomeIndex_spec hk
+    split at h
+    · rename_i hcond; injection h with h; subst h
+      exact .welcome _ k _ _ _ hcond.1 ⟨hk1, hk5⟩ hcond.2
+    · cases h
+  · cases h
+
+/-- whatever the acceptor accepts is a move of the conformant-server relation -/
+theorem srvMoveC_sound {v v1 : View} {cmd : Str} {args : List Str} {n : Str}
+    (h : srvMoveC v cmd args n = some v1) : SrvMove v ⟨cmd, args, n⟩ v1 := by
+  unfold srvMoveC at h
+  by_cases h1 : cmd = sPING
+  · rw [if_pos h1] at h; subst h1; exact srvPing_sound h
+  · rw [if_neg h1] at h
+    by_cases h2 : cmd = sCAP
+    · rw [if_pos h2] at h; subst h2; exact srvCap_sound h
+    · rw [if_neg h2] at h
+      by_cases h3 : cmd = sAUTHENTICATE
+      · rw [if_pos h3] at h; subst h3; exact srvAuth_sound h
+      · rw [if_neg h3] at h
+        by_cases h4 : isSaslNumeric cmd = true
+        · rw [if_pos h4] at h; exact srvSaslNumeric_sound h
+        · rw [if_neg h4] at h
+          by_cases h5 : isNickRefusal cmd = true
+          · rw [if_pos h5] at h
+            split at h
+            · rename_i hs; injection h with h; subst h; exact .nickRefused _ _ _ _ hs h5
+            · cases h
+          · rw [if_neg h5] at h
+            by_cases h6 : isMotdNumeric cmd = true
+            · rw [if_pos h6] at h; exact srvMotd_sound h
+            · rw [if_neg h6] at h
+              by_cases h7 : (welcomeIndex cmd).isSome = true
+              · rw [if_pos h7] at h; exact srvWelcome_sound h
+              · rw [if_neg h7] at h
+                split at h
+                · rename_i hcond; injection h with h; subst h; exact .noop _ _ hcond.1 hcond.2
+                · cases h
+
+theorem srvMoveB_sound {v v1 : View} {m : Msg} (h : srvMoveB v m = some v1) : SrvMove v m v1 := by
+  obtain ⟨cmd, args, n⟩ := m
+  exact srvMoveC_sound h
 
 end C08
